@@ -646,6 +646,28 @@ func init() {
 		m.set(args[1], args[2])
 		return tuple{args[2], false}
 	}
+	externals["(*sync.Map).Swap"] = func(fr *frame, args []value) value {
+		mm := smap(args[0], true)
+		prev, ok := mm.get(args[1])
+		mm.set(args[1], args[2])
+		if !ok {
+			return tuple{iface{}, false}
+		}
+		return tuple{prev, true}
+	}
+	externals["(*sync.Map).LoadAndDelete"] = func(fr *frame, args []value) value {
+		mm := smap(args[0], false)
+		prev, ok := mm.get(args[1])
+		if !ok {
+			return tuple{iface{}, false}
+		}
+		mm.del(args[1])
+		return tuple{prev, true}
+	}
+	externals["(*sync.Map).Clear"] = func(fr *frame, args []value) value {
+		smap(args[0], false).clear()
+		return nil
+	}
 	externals["(*sync.Map).Delete"] = func(fr *frame, args []value) value {
 		smap(args[0], false).del(args[1])
 		return nil
@@ -808,8 +830,9 @@ func init() {
 	externals["runtime.Caller"] = func(fr *frame, args []value) value { return tuple{uintptr(0), "", 0, false} }
 	externals["runtime.KeepAlive"] = func(fr *frame, args []value) value { return nil }
 	externals["runtime.SetFinalizer"] = func(fr *frame, args []value) value { return nil }
-	externals["context.Background"] = func(fr *frame, args []value) value { return iface{} }
-	externals["context.TODO"] = func(fr *frame, args []value) value { return iface{} }
+	externals["(*internal/godebug.Setting).Value"] = func(fr *frame, args []value) value { return "" }
+	externals["(*internal/godebug.Setting).IncNonDefault"] = func(fr *frame, args []value) value { return nil }
+	externals["(*internal/godebug.Setting).Name"] = func(fr *frame, args []value) value { return "" }
 	externals["os.Getenv"] = func(fr *frame, args []value) value { return "" }
 	externals["os.LookupEnv"] = func(fr *frame, args []value) value { return tuple{"", false} }
 
